@@ -175,6 +175,22 @@ def error_case(ctx, cli, tmp, case):
         args = [os.path.join(tmp, 'bin.bob'), '-o', outp]
     elif what == 'non_utf8_stdin':
         args = ['-o', outp]
+    elif what == 'stdout_full':
+        # the document goes to standard output, which accepts the open but fails every write
+        doc = '+--+\n|ab|\n+--+\n' if case.get('small', True) else big_document(rng_for(1, ID, 'stdout_full'))
+        open(good, 'w').write(doc)
+        mode = case.get('mode', 'file')
+        args = [good] if mode == 'file' else ([] if mode == 'stdin' else ['-s', doc.replace('\n', '\\n')])
+        with open('/dev/full', 'wb') as full:
+            r = subprocess.run([cli] + args, input=doc.encode() if mode == 'stdin' else None, stdout=full, stderr=subprocess.PIPE, timeout=120)
+        ctx.note(key_of('error', what, case.get('small'), mode), True, 'error_cases', 'error_' + what)
+        if r.returncode == 0:
+            return 'stdout_full (%s document, %s): exit status 0 although nothing could be written to standard output' % ('small' if case.get('small', True) else 'big', mode)
+        if r.returncode < 0:
+            return 'stdout_full: killed by signal %d' % -r.returncode
+        if not r.stderr.strip():
+            return 'stdout_full: no diagnostic'
+        return None
     elif what == 'build_target_is_dir':
         os.makedirs(os.path.join(tmp, 'b'))
         open(os.path.join(tmp, 'b', 'c.bob'), 'w').write('+-+\n')
@@ -302,8 +318,11 @@ def gen_build(rng, circles):
 
 
 def gen_error(rng):
-    what = rng.choice(['missing_file', 'bad_number', 'unwritable', 'output_is_dir', 'non_utf8', 'non_utf8_stdin', 'build_missing_dir', 'build_target_is_dir', 'unknown_option'])
+    what = rng.choice(['missing_file', 'bad_number', 'unwritable', 'output_is_dir', 'non_utf8', 'non_utf8_stdin', 'build_missing_dir', 'build_target_is_dir', 'unknown_option', 'stdout_full'])
     case = {'kind': 'error', 'what': what}
+    if what == 'stdout_full':
+        case['small'] = rng.random() < 0.6
+        case['mode'] = rng.choice(['file', 'stdin', 'inline']) if case['small'] else rng.choice(['file', 'stdin'])
     if what == 'bad_number':
         case['opt'] = rng.choice(['font-size', 'stroke-width', 'scale'])
         case['value'] = rng.choice(['abc', '', '1.5x', '--', '0x10', '1,5'] + (['-3', '2.5'] if case['opt'] == 'font-size' else []))
